@@ -122,7 +122,7 @@ structure Fixes where
   statusWritesJson : Bool
   /-- unknown path / method: today gin's default NoRoute — 404 `text/plain` "404 page not found" -/
   noRouteStructured : Bool
-  /-- a registered path with / without its trailing slash: today gin's RedirectTrailingSlash — 301 / 307 with an HTML body -/
+  /-- a registered path with / without its trailing slash: today gin's RedirectTrailingSlash — 301 with an HTML body (GET) / 307 with an empty body (other methods) -/
   trailingSlashRedirectOff : Bool
 deriving DecidableEq, Repr
 
@@ -380,7 +380,9 @@ def noRouteH (fx : Fixes) : Response :=
   if fx.noRouteStructured then fixedErr 404 "ErrRouteNotFound" "route not found" else ⟨404, [.nonJson]⟩   -- SWITCH 8
 
 def redirectH (fx : Fixes) (isGet : Bool) : Response :=
-  if fx.trailingSlashRedirectOff then noRouteH fx else ⟨if isGet then 301 else 307, [.nonJson]⟩          -- SWITCH 9
+  if fx.trailingSlashRedirectOff then noRouteH fx                                                         -- SWITCH 9
+  else if isGet then ⟨301, [.nonJson]⟩          -- http.Redirect writes an HTML link for GET
+  else ⟨307, []⟩                                -- and no body for the other methods
 
 /-- the handler proper (after the token middleware let the request through) -/
 def handle (fx : Fixes) (env : Env) (a : AuthIn) : Req → Response × Env
